@@ -236,6 +236,9 @@ def judge_in_clip(ctx, gspec, cs, ce, m):
     g = geoms.build(gspec) if ctx.evaluations % 4 else geoms.build_derived(gspec, ctx.rng)
     clip = _mk_clip(cs, ce)
     st, v = _call(ctx, G.is_in_clip, g, clip, m)
+    if m >= 0 and ctx.evaluations % 3 == 0:
+        geoms.edit_in_place(g, ctx.rng)
+        _call(ctx, G.is_in_clip, g, clip, m)
     spec = {"kind": "in_clip", "g": gspec, "clip": [cs, ce], "m": m}
     ctx.mon("is_in_clip.rejection")
     if m < 0:
@@ -259,6 +262,11 @@ def judge_geoms(ctx, axis, s1, s2, a, r):
         kw["min_relative_overlap"] = r
     st, v = _call(ctx, fn, g1, g2, **kw)
     st2, v2 = _call(ctx, fn, g2, g1, **kw)
+    if ctx.evaluations % 3 == 0:
+        # one of the two geometries is dragged somewhere else in place; the predicate is asked again
+        geoms.edit_in_place(g1, ctx.rng)
+        _call(ctx, fn, g1, g2, **kw)
+        _call(ctx, fn, g2, g1, **kw)
     spec = {"kind": axis, "g1": s1, "g2": s2, "abs": a, "rel": r}
     must_reject = (a is not None and r is not None) or (r is not None and not (0 <= r <= 1))
     ctx.mon(f"{axis}.relational")
